@@ -136,7 +136,7 @@ def main(argv=None):
         if r.status != "ok":
             stale.append(r)
             continue
-        if len(r.real) < r.contract.min_obligations:
+        if len(r.real) < r.contract.min_obligations and not r.synthetic:
             broken.append(f"{r.contract.qualname}: only {len(r.real)} obligations generated, "
                           f"contract expects >= {r.contract.min_obligations}")
         for o in r.vacuous_probes():
